@@ -1197,6 +1197,8 @@ impl<'a> GeneratorState<'a> {
                     .syntax_error("Unsupported cycle sleep value", pos))
             }
         };
+        // DEC and PLA change the N and Z flags: they no longer reflect the last expression
+        self.flags = FlagsState::Unknown;
         Ok(())
     }
 
